@@ -20,6 +20,8 @@ type Finding struct {
 	What     string         `json:"what"`
 	Input    map[string]any `json:"input"`
 	Replay   string         `json:"replay,omitempty"`
+	Seed     uint64         `json:"seed"` // seed and tier of the run that found it: the check is deterministic in them,
+	Tier     string         `json:"tier"` // so `bin/check Cxx --replay <file>` re-runs exactly that exploration
 }
 
 // Disagreement is a point where model and implementation differ.
@@ -123,6 +125,7 @@ func (r *Report) Note(format string, a ...any) {
 func (r *Report) Write(path, replayDir string) error {
 	_ = os.MkdirAll(replayDir, 0o755)
 	for i := range r.Findings {
+		r.Findings[i].Seed, r.Findings[i].Tier = r.Seed, r.Tier
 		b, _ := json.MarshalIndent(r.Findings[i], "", " ")
 		h := sha256.Sum256(b)
 		p := filepath.Join(replayDir, fmt.Sprintf("%s-%s.json", r.Property, hex.EncodeToString(h[:6])))
